@@ -51,6 +51,11 @@ theorem loc_step (w : W) (op : Op) : (step w op).1.loc = w.loc := by
     · split <;> rfl
     · rfl
   | reann p ctr ref ack => simp only [step, processReann]; split <;> rfl
+  | full p keep ctr ack =>
+    simp only [step, processFull]
+    split
+    · rfl
+    · split <;> rfl
 
 theorem loc_run (ops : List Op) : ∀ w : W, (run w ops).loc = w.loc := by
   induction ops with
